@@ -6,7 +6,7 @@
      wrapped memory is never counted, the decrement is conditional on !isWrapped only
  R4  pool: each backing-buffer allocation is counted with the same amount and the replaced buffer is deleted
 """
-from vlib.facts import kids, strip, walk, is_call, call_args, call_object, callee, render, literal
+from vlib.facts import noid, kids, strip, walk, is_call, call_args, call_object, callee, render, literal
 from vlib.cfg import write_target
 from vlib.work import AnalysisBroken
 
@@ -30,6 +30,7 @@ def run(ctx):
                      "~modeBuffer_t under !isWrapped; what is counted on allocation can never be a wrapped buffer and wrapped memory is never counted; pool buffers are counted with the amount allocated. "
                      "Does not decide the arithmetic identity over histories.")
     R.rule("C05-R1", "who-may-write the allocation counters", floor=8)
+    R.rule("C05-R5", "nothing that can raise stands between a backing allocation and its accounting (a freed buffer is discounted whether or not it was counted)", floor=3)
     R.rule("C05-R2", "increment followed on all paths by maxBytesAllocated = max(maxBytesAllocated, bytesAllocated)", floor=4)
     R.rule("C05-R3", "counted allocations are never wrapped; wrapped memory is never counted; decrement only under !isWrapped", floor=5)
     R.rule("C05-R4", "pool: buffer->malloc(n) paired with bytesAllocated += n; old buffer deleted", floor=6)
@@ -74,6 +75,53 @@ def run(ctx):
         p = cfg.find_path(cfg.position(n), "exit", is_max)
         R.ob("C05-R2", p is None, f.q, "hwm-after:%s" % render(n, False), f.site(n),
              "every path from the increment to the exit updates the high-water mark" if p is None else "a path leaves the function after the increment without updating maxBytesAllocated", path=p)
+    # ---- R5 --------------------------------------------------------------------------
+    memo = {}
+    def may_raise(g, depth=2):
+        k = (g.key, depth)
+        if k in memo:
+            return memo[k]
+        memo[k] = False
+        r = None
+        for c in g.walk():
+            if not is_call(c):
+                continue
+            if callee(c) == "occa::error":
+                r = "OCCA_ERROR in %s" % g.q.split("::")[-1]
+                break
+            if depth > 0:
+                for t in prog.resolve_call(c) or []:
+                    if t.key != g.key:
+                        sub = may_raise(t, depth - 1)
+                        if sub:
+                            r = sub
+                            break
+                if r:
+                    break
+        memo[k] = r
+        return r
+    for f, n in incs:
+        allocs = [c for c in f.walk() if c["k"] == "CXXMemberCallExpr" and callee(c).split("::")[-1] == "malloc" and f.cfg.before(c, n)]
+        if not allocs:
+            continue
+        a = allocs[-1]
+        between = [c for c in f.walk() if is_call(c) and c["i"] != a["i"] and f.cfg.before(a, c) and f.cfg.before(c, n) and not any(x["i"] == c["i"] for x in walk(n)) and not any(x["i"] == a["i"] for x in walk(c))]
+        why = None
+        for c in between:
+            if callee(c) == "occa::error":
+                why = (c, "OCCA_ERROR")
+                break
+            for t in prog.resolve_call(c) or []:
+                sub = may_raise(t)
+                if sub:
+                    why = (c, "%s (%s)" % (callee(c).split("::")[-1], sub))
+                    break
+            if why:
+                break
+        R.ob("C05-R5", why is None, f.q, "alloc->count:%s then %s" % (noid(render(a, False))[:50], noid(render(n, False))[:50]), f.site(why[0]) if why else f.site(n),
+             "no raising call in between" if why is None else
+             "%s can raise after the buffer exists and before it is counted: the exception frees the buffer, ~modeBuffer_t discounts bytes that were never added and memoryAllocated() wraps below zero "
+             "(device.malloc(n, unregisteredDtype))" % why[1])
     # ---- R3 --------------------------------------------------------------------------
     bd = prog.fn("occa::modeBuffer_t::~modeBuffer_t")
     decs = [n for n in bd.walk() if write_target(n) is not None and strip(write_target(n)).get("n") == BA]
